@@ -820,6 +820,14 @@ def Array(
 
                 if issubclass(cls.element_type, BitArrayType):
                     chunk_size = cls.element_type.size * 8
+                    if len(values) % chunk_size or (
+                        length is None
+                        and isinstance(cls.length, int)
+                        and len(values) < cls.length * chunk_size
+                    ):
+                        raise DataError(
+                            f"bit arrays must be encoded in whole elements of {chunk_size} bits"
+                        )
                     _len = len(values) // chunk_size
                     values = [
                         values[i : i + chunk_size]
